@@ -78,10 +78,16 @@ def run(ctx):
         for what, lines in sorted(by_kind.items()):
             both_syn = [l for l in lines if re.search(r"go \[syn \d+ \d+\] model \[syn \d+ \d+\]", l)]
             if what == "parse-outcome" and both_syn:
-                m = re.search(r'text "(.*)"$', both_syn[0])
+                ids = [l.split(" ", 2)[1] for l in both_syn[:400]]
+                texts = dbccheck.texts_for_ids(cases, ids)
+                best = min(texts, key=lambda k: len(texts[k])) if texts else None
+                line = next((l for l in both_syn if best is not None and l.split(" ", 2)[1] == best), both_syn[0])
+                data = texts.get(best, b"")
                 ctx.violation("c09-error-position", "a syntax error is not reported at the start of the offending token "
-                              "(implementation and model name different positions, %d case(s)): %s" % (len(both_syn), both_syn[0][:500]),
-                              {"first": both_syn[:3], "input_text": m.group(1) if m else ""}, found_input=True)
+                              "(implementation and model name different positions, %d case(s)); shortest: %s" % (len(both_syn), line[:500]),
+                              {"first": both_syn[:3], "input_hex": data.hex(), "input_text": data.decode("utf-8", "replace")[:2000],
+                               "how": "./check C09 --replay <this file> (prints the implementation's outcome; the model's position is in 'first')"},
+                              found_input=True)
                 lines = [l for l in lines if l not in both_syn]
                 if not lines:
                     continue
